@@ -11,7 +11,7 @@ import filesupport as fsup
 from props import c04, c10, c12, c13
 
 PROP = "C18"
-LEAN_MODULES = ["Props.C18"]
+LEAN_MODULES = ["Props.C18", "Props.Legacy"]
 RULE = (
     "case = (file family register|block|section, storage text|binary, declared component list, content: garbage, "
     "empty lines, content matching nothing, truncated binary records, well-formed content). File.read(content) on the "
